@@ -5,7 +5,7 @@ import win, vlib
 ASSUME = ["window output buffer never overflows", "single producer", "IDLETIMEOUT unset (idle-timeout firing is not exercised)",
           "a late row's re-delivery obligation is imposed only when the first delivery was logged before the row was emitted",
           "closure of a window for late rows is judged by the last COMPLETED trigger pass (processed watermark), known from the pwm trace events",
-          "far-future rows use now+48h"]
+          "far-future rows use now+40h; some runs place event time 20h ahead of the wall clock"]
 
 
 def run(tier):
